@@ -11,7 +11,7 @@ ROOT = "/verif"
 EROOT = os.environ.get("EVAL_ROOT", ROOT)
 REPO = os.environ.get("EVAL_REPO", "/repo")
 PREFIX = os.environ.get("EVAL_PREFIX", "")
-EXTRA = {"C19-O": ["C09"], "C10-O": ["C18"], "C06-O": ["C07", "C01"], "C07-O": ["C06", "C01"], "C13-O": ["C14"], "C17-O": ["C18"], "C18-O": ["C10"], "C16-O": ["C10"], "C04-O": ["C08"], "C08-O": ["C04"], "C12-O": ["C02"], "C05-O": ["C15"], "C15-O": ["C05"],
+EXTRA = {"C04-P": ["C08"], "C08-P": ["C02"], "C17-P": ["C16"], "C18-P": ["C16"], "C19-O": ["C09"], "C10-O": ["C18"], "C06-O": ["C07", "C01"], "C07-O": ["C06", "C01"], "C13-O": ["C14"], "C17-O": ["C18"], "C18-O": ["C10"], "C16-O": ["C10"], "C04-O": ["C08"], "C08-O": ["C04"], "C12-O": ["C02"], "C05-O": ["C15"], "C15-O": ["C05"],
          "C01-C": ["C07"], "C02-C": ["C16", "C10"], "C03-C": ["C16", "C10"], "C05-D": ["C16", "C10"], "C10-C": ["C16"], "C11-D": ["C16", "C10"], "C06-C": ["C17"], "C13-C": ["C17"], "C14-C": ["C17"],
          "C20-C": ["C17"], "C12-D": ["C17"], "C07-D": ["C17"], "C01-D": ["C17", "C07"], "C10-D": ["C17"], "C08-C": ["C18"], "C18-D": ["C08"], "C16-C": ["C17"], "C19-C": ["C02"], "C09-D": ["C03"], "C05-C": ["C11"],
          "C02-E": ["C10"], "C02-F": ["C03", "C09"], "C06-E": ["C01", "C07"], "C06-F": ["C17"], "C07-E": ["C01"], "C07-F": ["C13"], "C08-E": ["C18", "C10", "C16"], "C08-F": ["C15"],
@@ -36,12 +36,12 @@ def main():
     titles = {p["id"]: p["title"] for p in props}
     items = []
     for d in sorted(os.listdir(SRC)):
-        m = re.fullmatch(r"(C\d\d)([abcdefgh])", d)
+        m = re.fullmatch(r"(C\d\d)([abcdefghi])", d)
         if not m:
             continue
         for x in "AB":
             # second-round changes (directories CNNb) are filed as C and D, third-round ones (CNNc) as E and F, fourth-round ones (CNNd) as G and H
-            sid = f"{m.group(1)}-{ {'a': {'A': 'A', 'B': 'B'}, 'b': {'A': 'C', 'B': 'D'}, 'c': {'A': 'E', 'B': 'F'}, 'd': {'A': 'G', 'B': 'H'}, 'e': {'A': 'I', 'B': 'J'}, 'f': {'A': 'K', 'B': 'L'}, 'g': {'A': 'M', 'B': 'N'}, 'h': {'A': 'O', 'B': 'P'}}[m.group(2)][x] }"
+            sid = f"{m.group(1)}-{ {'a': {'A': 'A', 'B': 'B'}, 'b': {'A': 'C', 'B': 'D'}, 'c': {'A': 'E', 'B': 'F'}, 'd': {'A': 'G', 'B': 'H'}, 'e': {'A': 'I', 'B': 'J'}, 'f': {'A': 'K', 'B': 'L'}, 'g': {'A': 'M', 'B': 'N'}, 'h': {'A': 'O', 'B': 'P'}, 'i': {'A': 'P', 'B': 'Q'}}[m.group(2)][x] }"
             if todo and sid not in todo:
                 continue
             patch = f"{SRC}/{d}/patch{x}.ported.diff"
